@@ -292,6 +292,11 @@ func parseWidthModifier(s string) (int, int, error) {
 	return min, max, nil
 }
 
+// maxWidth is the largest width that a width modifier can
+// ask for. Components are padded to their minimum width, so
+// the width has to be something that fits into memory.
+const maxWidth = 1 << 16
+
 func parseWidth(s string) (int, error) {
 
 	if s == "*" {
@@ -309,6 +314,10 @@ func parseWidth(s string) (int, error) {
 
 	if n < 1 {
 		return 0, fmt.Errorf("width cannot be less than 1")
+	}
+
+	if n > maxWidth {
+		return 0, fmt.Errorf("width cannot be greater than %d", maxWidth)
 	}
 
 	return n, nil
